@@ -113,6 +113,18 @@ theorem C12_item_edit (it : Ty) (h : it.WF) (l : LenTy) (data : Slice) (items : 
   simp only [Nat.sub_zero] at hin hed
   exact ⟨hin, hilt, hed p' hp hv⟩
 
+/-- **`truncate(n)` with `n ≥ len()` is a no-op on the bytes**, whatever valid encoding the vector is in — in particular when its
+last item carries a real offset and is followed by a terminating slot, an encoding the library's own operations never produce
+(the mutation-score run found that no generated history started from one; they now do). -/
+theorem C12_truncate_noop (it : Ty) (l : LenTy) (hl : l.Law) (n : Nat) (data : Slice) (items : List (Nat × Bytes))
+    (hc : Chain it.dict l (max l.size it.dict.align) 0 data items) (hn : items.length ≤ n) :
+    flexTruncate it l n data = .ok data.bytes := by
+  have hospos : 0 < max l.size it.dict.align := Nat.lt_of_lt_of_le hl.size_pow2.pos (Nat.le_max_left _ _)
+  have hs := Chain.slots it it.dict l _ hospos hc (data.len + 1) (Nat.lt_succ_self _)
+  simp only [flexTruncate, hs, Res.bind_ok, List.length_map]
+  have : n ≥ items.length := hn
+  simp [this]
+
 /-- non-vacuity: item 0 of the two-item `FlexVec<FlatVec<u8,u8>, u8>` `[[7], [8,9]]` occupies bytes 1..4 -/
 example : flexItemRange L8 1 9 0 0 ⟨0, [4, 1, 7, 0, 255, 2, 8, 9]⟩ = .ok (some (1, 3)) := by decide
 end FV.Props
